@@ -81,6 +81,7 @@ EmptyConn == [recvd |-> <<>>,   \* [id, argv, ro]: ro = ordinal among the reply-
               out   |-> <<>>,   \* every frame in wire order: [t ("rep"/"push"), kind, chan, val]
               rel   |-> -1,     \* number of frames released to the client while the driver holds replies (-1: no hold)
               lost  |-> FALSE,
+              seen  |-> 0,      \* highest frame the log proves the client's reader had consumed (a Receive callback reported it)
               icur  |-> 0,      \* frame of the last invalidation push handed to the OnInvalidations callback
               lossnil |-> 0,    \* number of connection-loss nils handed to the callback
               sess  |-> 0,      \* dedicated session whose commands were received last (0: shared)
@@ -107,6 +108,10 @@ SubCmd(c)   == calls[c].wire[1].argv[1]
 SubChans(c) == {calls[c].wire[1].argv[i] : i \in 2..Len(calls[c].wire[1].argv)}
 SubConn(c)  == IF calls[c].wire[1].id \in DOMAIN where THEN where[calls[c].wire[1].id].conn ELSE 0
 Base(c, k)  == IF k \in DOMAIN calls[c].base THEN calls[c].base[k] ELSE 0
+\* The reader of the client lags behind the server: frames sent before a Receive was called may still be unread, and the
+\* Receive registers with the client at once.  Only frames the log PROVES consumed before the Call (some callback had
+\* reported them) are certainly not for the new Receive; MBase is that bound (<= Base).
+MBase(c, k) == IF k \in DOMAIN calls[c].mbase THEN calls[c].mbase[k] ELSE 0
 Eligible(c, k, f) == LET fr == conns[k].out[f] IN
                      fr.t = "push" /\ fr.kind = MsgKindOf(SubCmd(c)) /\ fr.chan \in SubChans(c)
 EndsSub(c, k, f)  == LET fr == conns[k].out[f] IN
@@ -114,7 +119,7 @@ EndsSub(c, k, f)  == LET fr == conns[k].out[f] IN
 \* frame f is what the next callback of Receive c must deliver: the next message push for its channels, nothing
 \* skipped since the previous callback (or since its SUBSCRIBE was executed: must), and the subscription not ended
 NextFor(c, k, f, msg) ==
-  LET lo == IF calls[c].got = <<>> THEN Base(c, k) ELSE calls[c].got[Len(calls[c].got)]
+  LET lo == IF calls[c].got = <<>> THEN MBase(c, k) ELSE calls[c].got[Len(calls[c].got)]
       nogapfrom == IF calls[c].got = <<>> THEN Max(calls[c].must, Base(c, k)) ELSE lo
   IN /\ f > lo /\ Eligible(c, k, f) /\ conns[k].out[f].val = msg
      /\ \A g \in (nogapfrom + 1)..(f - 1) : ~Eligible(c, k, g)
@@ -128,7 +133,8 @@ Call(c, kind, s, cmds) ==
   /\ \A j \in 1..Len(w) : w[j].id # "" => w[j].id \notin DOMAIN built
   /\ calls' = calls @@ (c :> [kind |-> kind, sess |-> s, wire |-> w, nres |-> NRes(kind, cmds), st |-> "open",
                               canc |-> FALSE, late |-> FALSE, res |-> <<>>,
-                              base |-> [k \in DOMAIN conns |-> Len(conns[k].out)], must |-> 0, got |-> <<>>])
+                              base |-> [k \in DOMAIN conns |-> Len(conns[k].out)],
+                              mbase |-> [k \in DOMAIN conns |-> conns[k].seen], must |-> 0, got |-> <<>>])
   /\ built' = built @@ [id \in {w[j].id : j \in {j \in 1..Len(w) : w[j].id # ""}} |->
                           LET j == CHOOSE j \in 1..Len(w) : w[j].id = id IN [c |-> c, j |-> j, argv |-> w[j].argv]]
   /\ last' = Touch("Call", {}, {}, FALSE)
@@ -152,9 +158,10 @@ RecvCb(c, msg) ==
   /\ LET k == SubConn(c)
          fs == IF k = 0 \/ calls[c].st # "open" THEN {} ELSE {f \in 1..Len(conns[k].out) : NextFor(c, k, f, msg)}
          f == IF fs = {} THEN 0 ELSE CHOOSE f \in fs : TRUE
-     IN calls' = [calls EXCEPT ![c].got = Append(@, f)]
+     IN /\ calls' = [calls EXCEPT ![c].got = Append(@, f)]
+        /\ conns' = IF f # 0 /\ f > conns[k].seen THEN [conns EXCEPT ![k].seen = f] ELSE conns
   /\ last' = Touch("RecvCb", {c}, {}, FALSE)
-  /\ UNCHANGED <<built, conns, where, sessv, glob>>
+  /\ UNCHANGED <<built, where, sessv, glob>>
 
 \* the OnInvalidations callback of the client option was invoked with keys ("nil" = flush or connection loss);
 \* it does not say for which connection: TLC chooses
@@ -416,11 +423,18 @@ HookClosedOnce ==
 \* every invalidation callback is the next invalidation push of some connection (nil for a flush) or the single nil
 \* of a lost connection
 InvalidationLog == "inval" \notin glob.bad /\ "hookinval" \notin glob.bad
-\* after the driver quiesced: open connections have delivered every invalidation push, lost ones exactly one nil
+\* after the driver quiesced: open connections have delivered every invalidation push, lost ones exactly one nil -
+\* to the callback of the client option, and to the SetOnInvalidations hook of a dedicated session that still held the
+\* connection when it was lost (whatever the cache configuration of the client: the nil is the caller's only notice
+\* that invalidations may have been missed)
 LossNilOnce ==
-  (glob.quiesced /\ glob.invalOn /\ ~glob.closing) =>
-    \A k \in DOMAIN conns : IF conns[k].lost THEN conns[k].lossnil = 1
-                            ELSE conns[k].lossnil = 0 /\ NextInval(k, conns[k].icur) = 0
+  /\ (glob.quiesced /\ glob.invalOn /\ ~glob.closing) =>
+       \A k \in DOMAIN conns : IF conns[k].lost THEN conns[k].lossnil = 1
+                               ELSE conns[k].lossnil = 0 /\ NextInval(k, conns[k].icur) = 0
+  /\ (glob.quiesced /\ ~glob.closing) =>
+       \A s \in DOMAIN sessv :
+          LET o == sessv[s] IN
+          (o.inval /\ o.conn # 0 /\ conns[o.conn].lost /\ ~o.released) => o.hlossnil = 1
 \* a dedicated session that installed an invalidation hook (or subscribed) is switched off before its connection
 \* serves anybody else, and at the latest when release() has returned
 TrackingOffOnRelease ==
